@@ -19,13 +19,14 @@ RULE = (
     "Non-trivial: some name has >= 2 occurrences and the case is expected-found or a near miss; distinct by canonical hash."
 )
 ASSUMPTIONS = [
-    "capture definitions only on the executed-exactly-once spine; deref-field captures are not asserted",
+    "capture definitions only on the executed-exactly-once spine",
+    "captures in $deref fields: asserted on operands with exactly the rule's components (a capture field then binds exactly one component, modulo the optional %/0x prefix); a name is reused only in fields of the same kind (register / constant)",
     "register families: a,b,c,d x (r?x,e?x,?x,?h,?l); s,d x (r?i,e?i,?i,?il); sp and bp x (r?,e?,?,?l); .8H only exists for &genreg",
     "a register capture without suffix matches the bound register at any width",
 ]
 KINDS = ["inst", "operand", "operand", "genreg", "genreg", "indreg", "stackreg", "basereg"]
 MUTATORS = ["none", "none", "none", "prefix-ext", "prefix-ext", "other-member", "wrong-width", "non-member", "swap-names", "last-operand", "unrelated-op", "def-empty", "def-non-member", "def-wrong-width"]
-FLOORS = {"kind=inst": 0.1, "kind=operand": 0.15, "kind=regfam": 0.2, "mut=prefix-ext": 0.08, "expect=found": 0.25, "near-miss": 0.3}
+FLOORS = {"kind=inst": 0.08, "kind=operand": 0.12, "kind=regfam": 0.16, "mut=prefix-ext": 0.06, "expect=found": 0.25, "near-miss": 0.3, "kind=deref-field": 0.08, "deref-keys=permuted": 0.04}
 
 # operands with prefix / extension relatives (att, norm)
 RELATED = [
@@ -290,14 +291,193 @@ def cases(draw):
     return {"flags": list(full), "mut": applied if mut != "none" else "none", "asked": mut, "listing": L, "pattern": pattern, "kinds": sorted({n["kind"] for n in names}), "multi": multi}
 
 
+# ---------------------------------------------------------------------------------- captures in $deref fields
+DC_SHAPES = [("main_reg",), ("main_reg", "constant_offset"), ("main_reg", "register_multiplier", "constant_multiplier"),
+             ("main_reg", "register_multiplier", "constant_multiplier", "constant_offset")]
+DC_REGS = ["%rax", "%rbx", "%rcx", "%rdx", "%rsi", "%rdi", "%rbp", "%r8", "%r9", "%r12", "%r13", "%eax", "%ebx"]
+DC_OFFS = ["0x8", "0x10", "0x18", "0x100", "-0x8", "-0x10", "0x4", "0x2"]
+DC_SCALES = ["1", "2", "4", "8"]
+DC_MN = ["mov", "lea", "add", "cmp", "movq", "sub"]
+DC_MUT = ["none", "none", "none", "cap-component", "cap-component", "lit-component", "swap-values", "shape"]
+
+
+def _dc_texts(comps):
+    fields = [f for f in ("main_reg", "register_multiplier", "constant_multiplier", "constant_offset") if f in comps]
+    a, k = comps["main_reg"], comps.get("constant_offset")
+    if "register_multiplier" in comps:
+        att = f"{k or ''}({a},{comps['register_multiplier']},{comps['constant_multiplier']})"
+        norm = f"[{a}+{comps['register_multiplier']}*{comps['constant_multiplier']}" + (f"+{k}]" if k else "]")
+    else:
+        att = f"{k or ''}({a})"
+        norm = f"[{a}+{k}]" if k else f"[{a}]"
+    return fields, att, norm
+
+
+def _dc_value(draw, field, avoid=None):
+    pool = DC_REGS if field in ("main_reg", "register_multiplier") else DC_SCALES if field == "constant_multiplier" else DC_OFFS
+    if field == "register_multiplier":
+        pool = [r for r in pool if r not in ("%rsp", "%esp")]
+    return draw(st.sampled_from([v for v in pool if v != avoid]))
+
+
+def _dc_strip(v):
+    v = str(v)
+    if v.startswith("%"):
+        return v[1:]
+    if v.startswith("0x"):
+        return v[2:]
+    return v
+
+
+@st.composite
+def deref_capture_cases(draw):
+    """Two or three instructions whose memory operands are described by $deref items with capture names in some fields,
+    the fields written in a drawn key order; later items refer to the same names (in the same or in another field of the
+    same kind)."""
+    mut = draw(st.sampled_from(DC_MUT))
+    shape = draw(st.sampled_from(DC_SHAPES))
+    nitems = draw(st.integers(2, 3))
+    comps0 = {f: _dc_value(draw, f) for f in shape}
+    if "register_multiplier" in comps0 and comps0["register_multiplier"][1] != comps0["main_reg"][1]:
+        comps0["register_multiplier"] = draw(st.sampled_from([r for r in DC_REGS if r[1] == comps0["main_reg"][1]]))  # same address size
+    ncap = draw(st.integers(1, len(shape)))
+    capfields = list(draw(st.permutations(list(shape))))[:ncap]
+    if mut == "swap-values":
+        # needs two captured fields of the same kind or any two captured fields
+        capfields = list(shape)[:] if len(shape) >= 2 else capfields
+    names = {f: f"&d{n}" for n, f in enumerate(capfields)}
+    items, window, comps_list = [], [], []
+    for k in range(nitems):
+        comps = dict(comps0)
+        fields = {}
+        for f in shape:
+            if f in names and (k == 0 or draw(st.integers(0, 3)) > 0):
+                fields[f] = ["cap", names[f]]
+            else:
+                v = comps[f]
+                spelled = _dc_strip(v) if draw(st.booleans()) else v
+                if f == "constant_offset" and v.startswith("-"):
+                    spelled = v
+                fields[f] = ["lit", spelled]
+        if k > 0 and not any(v[0] == "cap" for v in fields.values()):
+            f = draw(st.sampled_from(sorted(names)))
+            fields[f] = ["cap", names[f]]
+        order = list(draw(st.permutations(list(shape))))
+        mn = draw(st.sampled_from(DC_MN))
+        other = draw(st.sampled_from(["%rax", "%rcx", "%r10", "$0x1", "%edx"]))
+        pos = draw(st.integers(0, 1))
+        items.append({"mn": mn, "pos": pos, "fields": fields, "order": order, "other": other})
+        comps_list.append(comps)
+    # mutate the operand of a later instruction
+    applied = "none"
+    if mut != "none":
+        k = draw(st.integers(1, nitems - 1))
+        it = items[k]
+        c = comps_list[k]
+        if mut == "cap-component":
+            fs = [f for f, v in it["fields"].items() if v[0] == "cap"]
+            f = draw(st.sampled_from(fs))
+            c[f] = _dc_value(draw, f, avoid=c[f])
+            applied = mut
+        elif mut == "lit-component":
+            fs = [f for f, v in it["fields"].items() if v[0] == "lit"]
+            if fs:
+                f = draw(st.sampled_from(fs))
+                c[f] = _dc_value(draw, f, avoid=c[f])
+                applied = mut
+        elif mut == "swap-values":
+            pairs = [("main_reg", "register_multiplier")] if "register_multiplier" in c else []
+            if pairs and c["main_reg"] != c["register_multiplier"]:
+                c["main_reg"], c["register_multiplier"] = c["register_multiplier"], c["main_reg"]
+                applied = mut
+        elif mut == "shape":
+            if "constant_offset" in c:
+                del c["constant_offset"]
+            else:
+                c["constant_offset"] = draw(st.sampled_from(DC_OFFS))
+            applied = mut
+    pattern = []
+    for it in items:
+        d = {"$deref": {f: it["fields"][f][1] for f in it["order"]}}
+        if it["pos"] == 0:
+            ops = [d] + ([it["other"].lstrip("$")] if draw(st.booleans()) else [])
+        else:
+            ops = [it["other"].lstrip("$"), d]
+        pattern.append({it["mn"]: ops})
+    L, comps_idx = [], []
+    a = draw(st.sampled_from([0x0, 0x400, 0x401000]))
+
+    def put(m, oa, on, comps):
+        nonlocal a
+        L.append([format(a, "x"), m, oa, on])
+        comps_idx.append(comps)
+        a += draw(st.integers(1, 7))
+
+    for _ in range(draw(st.integers(0, 2))):
+        put("nop", [], [], None)
+    for it, c in zip(items, comps_list):
+        _, att, norm = _dc_texts(c)
+        o_att, o_norm = it["other"], it["other"].lstrip("$")
+        if it["pos"] == 0:
+            put(it["mn"], [att, o_att], [norm, o_norm], {"pos": 0, "comps": c})
+        else:
+            put(it["mn"], [o_att, att], [o_norm, norm], {"pos": 1, "comps": c})
+    for _ in range(draw(st.integers(0, 2))):
+        put("ret", [], [], None)
+    return {"form": "deref-capture", "mut": applied if mut != "none" else "none", "asked": mut, "items": items, "pattern": pattern, "listing": L, "comps": comps_idx,
+            "key_order_canonical": all(it["order"] == [f for f in ("main_reg", "register_multiplier", "constant_multiplier", "constant_offset") if f in it["order"]] for it in items)}
+
+
+def _dc_spans(case):
+    """Component-wise oracle: item k describes instruction i+k; literal fields equal the component (optional %/0x),
+    captured fields carry the same text (modulo the optional %/0x prefix) wherever the name occurs."""
+    L, items, comps = case["listing"], case["items"], case["comps"]
+    spans = {}
+    for i in range(len(L) - len(items) + 1):
+        env = {}
+        ok = True
+        for k, it in enumerate(items):
+            rec, meta = L[i + k], comps[i + k]
+            if meta is None or it["mn"] not in rec[1] or meta["pos"] != it["pos"] or set(meta["comps"]) != set(it["fields"]):
+                ok = False
+                break
+            pat_ops = case["pattern"][k][it["mn"]]
+            for q, p in enumerate(pat_ops):
+                if isinstance(p, str) and (q >= len(rec[3]) or p not in rec[3][q]):
+                    ok = False
+            for f, (kind, v) in it["fields"].items():
+                have = _dc_strip(meta["comps"][f])
+                if kind == "lit":
+                    ok = ok and _dc_strip(v) == have
+                elif v in env:
+                    ok = ok and env[v] == have
+                else:
+                    env[v] = have
+            if not ok:
+                break
+        if ok:
+            spans[i] = {i + len(items)}
+    return spans
+
+
 def strategy(tier):
-    return cases()
+    return st.one_of(cases(), cases(), cases(), cases(), cases(), deref_capture_cases())
 
 
 def evaluate(case):
     ev = Eval()
     ev.subcases = 0
     L, pattern = case["listing"], case["pattern"]
+    if case.get("form") == "deref-capture":
+        spans = _dc_spans(case)
+        exp, _, _ = compare(ev, pattern, L, None, None, spans=spans)
+        near = case["mut"] != "none"
+        ev.tags = ["kind=deref-field", f"dmut={case['mut']}", "expect=found" if exp else "expect=notfound", "deref-keys=canonical" if case["key_order_canonical"] else "deref-keys=permuted"]
+        if near:
+            ev.tags.append("near-miss")
+        ev.nontrivial = exp or near
+        ev.sample = {"mut": case["mut"], "pattern": pattern, "stream": stream_sample(L), "expected_found": exp}
+        return ev
     mn_full, op_full = case.get("flags", [False, False])
     exp, spans, _ = compare(ev, pattern, L, mn_full or None, op_full or None)
     ev.tags = (["flags=full"] if (mn_full or op_full) else []) + [f"mut={case['mut']}", "expect=found" if exp else "expect=notfound"] + [f"kind={k}" for k in case["kinds"]]
